@@ -533,6 +533,20 @@ Proof.
   apply (ds_without_key_DsInv ds1 k tok (H1 d ds1 A1) Ek He).
 Qed.
 
+Lemma dset_add_key_DsInv ds tok : DsInv ds -> DsInv (fst (dset_add_key ds tok)).
+Proof.
+  intros H. unfold dset_add_key. destruct (ref_key ds (ById tok)) as [k|] eqn:E; [exact H|].
+  cbn [fst]. apply append_key_DsInv; [exact H|apply ref_key_none; assumption].
+Qed.
+
+Lemma store_add_key_SetsInv s dr tok : SetsInv s -> SetsInv (fst (store_add_key s dr tok)).
+Proof.
+  intros H. unfold store_add_key. destruct (ref_set s dr) as [h|]; [|exact H].
+  destruct (get_set s h) as [d|] eqn:Hd; [|exact H].
+  pose proof (dset_add_key_DsInv d tok (H h d Hd)) as Hk. destruct (dset_add_key d tok) as [d' r]. cbn [fst] in *.
+  apply SetsInv_set_slot; [exact H|]. intros ds E. inversion E; subst. exact Hk.
+Qed.
+
 Definition op_ok (o : op) : Prop :=
   match o with
   | InsData b => dbuild_ok b
@@ -570,6 +584,7 @@ Proof.
     destruct (get_set s5 h) as [ds|]; cbn [fst]; [|apply (SetsInv_same s); assumption].
     intros d0 ds0 Hd. unfold get_set in Hd. cbn [set_sets set_sidx sets] in Hd. rewrite E5, slot_set_slot in Hd.
     destruct ((d0 =? h) && (h <? length (sets s))); [discriminate|apply (H d0 ds0 Hd)].
+  - apply store_add_key_SetsInv. exact H.
 Qed.
 
 Theorem reachable_SetsInv : forall ops, Forall op_ok ops -> SetsInv (run ops).
